@@ -19,7 +19,7 @@ args, children/levels only grow by append at the tabled sites; (R07.5) the root 
 level 0, metaepoch 0, no seed, once; (R07.6) parents on the last level are refused and generators never offer them;
 (R07.7) generator candidates have provenance current_population / best_current_individual of the keyed deme (NBC: the
 clustering returns a subset of its constructor argument — checked as its own obligation); (R07.8) seeded SEA/DE/SHADE
-constructors sample pop_size - 1 individuals and append one whose genome is the seed's. (R07.9) filters only shrink a parent's candidate list, so a candidate stays under the deme that proposed it; the seeded population is not cut after the seed joined it; nothing writes into the process-wide config -> engine registry."""
+constructors sample pop_size - 1 individuals and append one whose genome is the seed's. (R07.9) filters only shrink a parent's candidate list, so a candidate stays under the deme that proposed it; the seeded population is not cut after the seed joined it; nothing writes into the process-wide config -> engine registry. (R07.10) the tree's metaepoch counter is written only by __init__ / run_step, so start metaepochs stay consistent across several run() calls."""
 NOTE = """User-composed sprout mechanisms and custom deme classes registered through the config live outside pyhms. Filters
 only removing candidates is C10's R10.2."""
 TECHNIQUE = "def-use / argument-agreement analysis, who-may-write tables and registry exhaustiveness over the ast program model"
@@ -303,6 +303,10 @@ def r07_2(ctx: Ctx):
         if innermost is None or not any(x is inner_calls[0] for x in ast.walk(innermost)):
             ok = False
             why = "the child id is computed outside the loop that creates the children: every child sprouted from one parent in a round gets the same id"
+    if not inner_calls:
+        # the ids are built some other way (inline, from a running count ...): R07.1 reads the `new_id` argument itself
+        obs.append(ctx.ob("R07.2", g, g.node, status=INCONCLUSIVE, detail="_do_sprout does not obtain the child ids from _next_child_id: how they are built is judged on the `new_id` argument (R07.1)", construct="one-id-per-child"))
+        return obs
     obs.append(ctx.ob("R07.2", g, inner_calls[0] if inner_calls else g.node, status=OK if ok else VIOLATION, detail="one id computation per created child, followed by the append to the level (R07.1)" if ok else why, construct="one-id-per-child"))
     others = [cs for cs in ctx.res.callers_of(f) if cs.caller is not g and cs.caller.qualname not in behind]
     if others:
